@@ -149,6 +149,10 @@ func (x *XmlNode) Field(r node.FieldRequest, hnd *node.ValueHandle) error {
 			ndx = x.Find(ndx+1, r.Meta)
 		}
 		hnd.Val, err = node.NewValue(r.Meta.Type(), found)
+	} else if r.Meta.Type().Format() == val.FmtString {
+		// the text of a string leaf is its value, blanks included; only the other
+		// types tolerate (and ignore) surrounding white space
+		hnd.Val, err = node.NewValue(r.Meta.Type(), string(x.Nodes[ndx].Content))
 	} else {
 		hnd.Val, err = node.NewValue(r.Meta.Type(), x.Nodes[ndx].ContentTrim())
 	}
